@@ -1,6 +1,7 @@
 #!/bin/bash
 # runs every seeded change against the check of its property (quick tier); prints one line per seed
 cd /verif
+export VERIF_EVIDENCE_DIR=/verif/.scratch/evidence-seeded
 for d in seeded/*/; do
   sid=$(basename $d); prop=${sid%%-*}
   git -C /repo diff --quiet || { echo "/repo not clean"; exit 9; }
